@@ -22,11 +22,16 @@ Local Open Scope N_scope.
 
 Definition u32 (n : N) : N := n mod two32.
 
+(* [Lexer.index_checked], with the range test done in N first: the same function, but it does
+   not build a unary numeral of 2^32 under vm_compute when the index is far out of range *)
+Definition index_checked_fast (l : str) (i : N) : option N :=
+  if i <? N.of_nat (length l) then nth_error l (N.to_nat i) else None.
+
 (* [input] is the whole line, [pos] the absolute read position (pos <= len input < 2^32) *)
 Definition event_body_u32 (input : str) (pos tl xl : N) : result (str * str * str) :=
   let len := u32 (N.of_nat (length input)) in
   if u32 (len + two32 - pos) <? u32 (u32 (tl + 1) + xl) then Rej ENotEnoughData
-  else match index_checked input (u32 (pos + tl)) with
+  else match index_checked_fast input (u32 (pos + tl)) with
        | None => Pan
        | Some b =>
            if negb (b =? c_pipe) then Rej EInvalidFormat
